@@ -31,9 +31,66 @@ from checks import c20_master   as part_b                          # noqa: E402
 from checks import c20_dispatch as part_c                          # noqa: E402
 
 
+def run_mpi_results(ctx):
+    '''
+    the MPI worker's result pusher collects one result per rank and reports
+    the request once all are there: every vector of rank exit codes (success,
+    failure, killed by a signal) in every arrival order - the request is
+    reported exactly once, after the last rank, as failed iff a rank failed,
+    with the per-rank outputs in arrival order
+    '''
+    import itertools
+    from rpmc import seams
+    seams.import_rp()
+    from radical.pilot.raptor import worker_mpi as wm
+    codes_alpha = (0, 1, 2, -9, -15)
+    n = 0
+    for ranks in (1, 2, 3):
+        for codes in itertools.product(codes_alpha, repeat=ranks):
+            for order in itertools.permutations(range(ranks)):
+                n += 1
+                p = wm._ResultPusher.__new__(wm._ResultPusher)
+                p._cache = dict()
+                dones, last = list(), None
+                for k in order:
+                    t = {'uid': 'req.0', 'description': {'ranks': ranks},
+                         'rank': k, 'ranks': ranks, 'stdout': 'out%d' % k,
+                         'stderr': 'err%d' % k, 'return_value': k,
+                         'exit_code': codes[k]}
+                    dones.append(bool(p._check_ranks(t)))
+                    last = t
+                replay = {'part': 'mpi-results', 'codes': list(codes),
+                          'order': list(order)}
+                shape  = 'ranks=%d:%s' % (ranks, '+'.join(sorted(set(
+                         'ok' if c == 0 else 'fail' if c > 0 else 'signal'
+                         for c in codes))))
+                if dones != [False] * (ranks - 1) + [True]:
+                    ctx.violation('mpi-result-once|_ResultPusher._check_ranks|'
+                                  + shape, 'rank results %s in order %s: '
+                                  'reported complete at %s' % (codes, order,
+                                                               dones), replay)
+                    continue
+                ok = all(c == 0 for c in codes)
+                if (last['exit_code'] == 0) != ok:
+                    ctx.violation('mpi-exit-code|_ResultPusher._check_ranks|'
+                                  + shape, 'rank exit codes %s (arrival order '
+                                  '%s): the request is reported with exit '
+                                  'code %s' % (codes, order,
+                                               last['exit_code']), replay)
+                if last['stdout'] != ['out%d' % k for k in order] or \
+                   last['return_value'] != list(order):
+                    ctx.violation('mpi-outputs|_ResultPusher._check_ranks|'
+                                  + shape, 'per-rank outputs %s / %s for '
+                                  'arrival order %s' % (last['stdout'],
+                                  last['return_value'], order), replay)
+                ctx.outcome(('mpi', ranks, ok, last['exit_code'] == 0))
+    ctx.cover(evaluations=n, mpi_result_vectors=n)
+
+
 def run(ctx):
 
     ctx.level = 'model_checking'
+    run_mpi_results(ctx)
 
     # C20_PARTS selects parts while developing / trying mutants (default: all)
     parts = os.environ.get('C20_PARTS', 'abc')
